@@ -273,6 +273,7 @@ type Exec struct {
 	clock           *Term
 	pools           map[*Value][]Value
 	preemptBound    int
+	canonSched      bool // one canonical schedule: lowest-numbered enabled thread at blocking points
 	preemptions     int
 	clockConcrete   bool
 	clockTicks      int64
